@@ -179,7 +179,10 @@ def run_ast_case(case, res, prop):
             groups.append(g)
         else:
             groups.append([None])
-    addr = [0]
+    # (a share of the programs is assembled into an instruction memory that starts at another address: labels and
+    #  pc-relative displacements move with it)
+    B = [0, 0, 0x100, 0x404][case["seed"] % 4] if len(ast["stmts"]) < 200 else 0
+    addr = [B]
     for g in groups:
         addr.append(addr[-1] + 4 * len(g))
     laddr = {l: addr[p] for l, p in ast["labels"].items()}
@@ -206,7 +209,10 @@ def run_ast_case(case, res, prop):
                     except Exception:
                         pass
         try:
-            if ri % 3 == 2:
+            if B:
+                sim = load(text, ibase=B)
+                res.count("assembled_at_other_instruction_base")
+            elif ri % 3 == 2:
                 # the assembler's own public entry point on an architectural state that already holds a LONGER
                 # program: afterwards the instruction memory holds exactly the new program
                 from architecture_simulator.isa.riscv.riscv_parser import RiscvParser
@@ -230,8 +236,8 @@ def run_ast_case(case, res, prop):
             return
         res.count("programs_loaded")
         got = listing(sim)
-        if [a for a, _ in got] != list(range(0, 4 * len(exp), 4)):
-            res.violation("C04", "listing-addresses", "instructions at %s..., expected %d consecutive 4-byte slots from 0; rendering seed %d" % ([a for a, _ in got][:8], len(exp), ri), case)
+        if [a for a, _ in got] != list(range(B, B + 4 * len(exp), 4)):
+            res.violation("C04", "listing-addresses", "instructions at %s..., expected %d consecutive 4-byte slots from %d; rendering seed %d" % ([a for a, _ in got][:8], len(exp), B, ri), case)
             return
         for (a, f), e in zip(got, exp):
             ok = A.same_fields(f, e) if "m" in e and set(e) <= {"m", "rd", "rs1", "rs2", "imm"} and not _is_group_field(e) else f == e
@@ -251,7 +257,7 @@ def run_ast_case(case, res, prop):
         return
     # C14 clause: the printed listing re-assembles to the same listing
     try:
-        s2 = load("\n".join(t for _, t in reprs[0]))
+        s2 = load("\n".join(t for _, t in reprs[0]), ibase=B or None)  # (re-assembled where it was printed)
         res.count("listing_round_trips")
         if s2.state.instruction_memory.get_representation() != reprs[0]:
             res.violation("C14", "listing-round-trip", "re-assembling the printed listing gives a different listing", case)
@@ -287,6 +293,18 @@ def run_ast_case(case, res, prop):
                 d_ = [(x, y) for x, y in zip(lB, lB2) if x != y][:1]
                 res.violation("C14", "listing-round-trip", "instruction memory starting at %#x: the printed listing re-assembles to other instructions, first difference %r" % (B, d_ or (len(lB), len(lB2))), case)
                 return
+    if case["seed"] % 2 == 1 and exp:
+        # ... and a text that denotes NO instruction, loaded into the same simulation after its listing was looked
+        # at, leaves an empty instruction memory
+        try:
+            sim.load_program("# nothing\n\n")
+            left = sim.state.instruction_memory.get_representation()
+        except Exception as e:
+            left = repr(e)
+        res.count("empty_text_loaded_afterwards")
+        if left != []:
+            res.violation("C04", "listing-mismatch", "after loading a text without instructions into the same simulation the listing shows %s" % (str(left)[:120],), case)
+            return
     # coverage flags
     refs = [s for s in ast["stmts"] if s["k"] in ("brl", "jall")]
     res.count("label_refs_checked", len(refs))
